@@ -95,3 +95,8 @@ claim("C19",
       "exhaustive sweep of a datagram alphabet over server states, each datagram repeated three times",
       "valid / padded / truncated / corrupted / foreign / expired requests, valid / padded / truncated / cross-session responses and all 256 prefix bytes x parser-threshold lengths from an address without a completed handshake in six server states: at most one reply per call, to the source, strictly smaller than the datagram received, none for datagrams without a valid token or response",
       TB, "DESIGN.md §5 C19")
+
+claim("C20",
+      "bounded exhaustive schedule enumeration over real UDP transports behind a harness-owned relay (one thread, harness-owned time)",
+      "every schedule with <= d per-datagram deviations (drop, duplicate, delay, corrupt, replay) applied by an in-path relay to the real NetcodeServerTransport / NetcodeClientTransport / RenetServer / RenetClient over loopback UDP sockets, for six session scripts (no disconnect, client renet disconnect, client transport disconnect, server renet disconnect, disconnect_all, silent client); lock-step of message and handshake layers and of the event stream after every server update, both-side teardown, untouched sessions stay healthy with every reliable message delivered exactly once in order",
+      TB + "; Linux loopback UDP synchronous delivery (guarded by the determinism gate)", "DESIGN.md §5 C20")
